@@ -268,7 +268,8 @@ class _Stmt(ast.NodeTransformer):
 
     def _check_bind(self, k, spec, n, extra=()):
         assigned = _assigned_names(n.body) - set(extra)
-        live = assigned & self.pre_names
+        before = {nm for nm, ln in self.pre_names.items() if ln < n.lineno}
+        live = assigned & before
         missing = live - set(spec.carried) - set(getattr(spec, "local_ok", ()))
         if missing:
             raise ContractBindError(f"loop {k}: variables {sorted(missing)} are re-assigned in the loop but not covered by the loop contract")
@@ -363,12 +364,16 @@ def rewrite_function(fn, loop_specs=None, rename=None):
             n = self.visit_FunctionDef(n)
             return ast.FunctionDef(name=n.name, args=n.args, body=n.body, decorator_list=n.decorator_list, returns=None, type_comment=None)
 
+    orig_body = list(fn.body)
     inner_body = [Ann().visit(st) for st in fn.body]
     fn.body = inner_body
     ex = _Expr(self_name)
     fn.body = [ex.visit(st) for st in fn.body]
     fn.args.defaults = [ex.visit(d) for d in fn.args.defaults]
-    pre_names = {x.arg for x in a.posonlyargs + a.args + a.kwonlyargs} | _assigned_names(fn.body)
+    pre_names = {x.arg: 0 for x in a.posonlyargs + a.args + a.kwonlyargs}
+    for nd in ast.walk(ast.Module(orig_body, [])):
+        if isinstance(nd, ast.Name) and isinstance(nd.ctx, ast.Store):
+            pre_names[nd.id] = min(pre_names.get(nd.id, 10**9), nd.lineno)
     st = _Stmt(loop_ids, loop_specs, pre_names)
     new_body = []
     for s in fn.body:
